@@ -44,6 +44,15 @@ Theorem C03_optimal_sound_partial : forall minimize fuel c A b r,
 Proof. exact optimal_sound_nophase1. Qed.
 Print Assumptions C03_optimal_sound_partial.
 
+(* for the same LPs, whatever the status (OPTIMAL, UNBOUNDED, MAX_ITER) the returned point is feasible and
+   the reported objective is c.x *)
+Theorem C03_point_feasible_partial : forall minimize fuel c A b r,
+  valid_lp c A b = true -> forallb (Qleb 0) b = true ->
+  solve_lp 0 minimize fuel c A b = r ->
+  feasible A b (r_solution r) /\ r_objective r == dot c (r_solution r).
+Proof. exact point_feasible_nophase1. Qed.
+Print Assumptions C03_point_feasible_partial.
+
 (* ---- (3), (4) INFEASIBLE / UNBOUNDED are sound.  Full statements: *)
 Definition C03_infeasible_sound_full_statement : Prop :=
   forall minimize fuel c A b r,
@@ -127,8 +136,8 @@ Proof. vm_compute. repeat split. Qed.
 (* the hypotheses of C03_optimal_sound_partial hold on a two-pivot maximisation problem *)
 Example C03_optimal_sound_nonvacuous :
   valid_lp [3; 2] [[1; 1]; [1; 3]; [1; 0]] [4; 6; 3] = true /\ forallb (Qleb 0) [4; 6; 3] = true
-  /\ r_status (solve_lp 0 false max_iter_default [3; 2] [[1; 1]; [1; 3]; [1; 0]] [4; 6; 3]) = OPTIMAL
-  /\ r_solution (solve_lp 0 false max_iter_default [3; 2] [[1; 1]; [1; 3]; [1; 0]] [4; 6; 3]) = [3; 1].
+  /\ r_status (solve_lp 0 false 100 [3; 2] [[1; 1]; [1; 3]; [1; 0]] [4; 6; 3]) = OPTIMAL
+  /\ r_solution (solve_lp 0 false 100 [3; 2] [[1; 1]; [1; 3]; [1; 0]] [4; 6; 3]) = [3; 1].
 Proof. vm_compute. repeat split. Qed.
 
 (* min -x s.t. x <= 1: optimum x = 1, slack 0, multiplier y = -1 (the code's sign), zs = 1 *)
